@@ -26,7 +26,8 @@ TRUSTED = ["correspondence harness props/C04.py + props/_c04_kernel.py + pv/ (fa
            "faults on /proc/<n>/status; props/_c04_sched.py line-level thread scheduler)",
            "hand-written model coq/C04/Model.v of psutil/__init__.py pids/pid_exists/process_iter/is_running/as_dict(keys) and "
            "_pslinux.pids/pid_exists, tied to the code by this run only",
-           "formats of the procfs root listing and of /proc/<n>/status (Tgid line) in coq/C04/Spec.v"]
+           "formats of the procfs root listing and of /proc/<n>/status (Tgid line) in coq/C04/Spec.v; the Name: record printer "
+           "k_name_line is compared with the running kernel on every run (live_name cases)"]
 ASSUMPTIONS = ["every psutil call is atomic with respect to kernel events; in the theorems generators interleave at yield points (two "
                "generator objects advanced alternately) and the commit 'finally: _pmap = pmap' is ONE step of the machine (theorem "
                "C04_cache_change_is_commit): that is the modelled granularity; the line-level windows of two threads inside the "
@@ -58,6 +59,22 @@ AD_VALUES = [None, "N/A", 0, -1]
 # the optional kernel record a case may lack: /proc/<pid>/status without the *_ctxt_switches lines
 # (Linux < 2.6.23, gVisor) -> Process.num_ctx_switches() raises NotImplementedError
 OPTIONAL = ["num_ctx_switches"]
+# hostile but legal task names: the kernel escapes only '\n' and '\\' in the Name: record of /proc/<id>/status, every other
+# byte is printed raw.  {self} = the id of the task the file belongs to, {other} = a number that is not its thread-group id.
+HOSTILE = [b"x\rTgid:\t{other}", b"\rTgid:\t{self}", b"ab\rTgid:", b"\x0bTgid:\t{self}", b"\x0cTgid:\t{other}",
+           b"\x1cTgid:\t{self}", b"\x1dTgid:\t{other}", b"\x1eTgid:\t{self}", b"\xc2\x85Tgid:\t{self}",
+           b"\xe2\x80\xa8Tgid:\t{other}", b"Tgid:\t{other}", b":\t\t:Tgid:", b"a\nTgid:\t{self}", b"b\\nTgid:\\",
+           b"\r\nTgid:\t{self}\r"]
+
+
+def hostile_comm(ident, k):
+    """the k-th hostile name for task [ident]"""
+    t = HOSTILE[(ident + k) % len(HOSTILE)]
+    return t.replace(b"{self}", b"%d" % ident).replace(b"{other}", b"%d" % (ident + 100000))
+
+
+def _escape_name(comm):
+    return comm.replace(b"\\", b"\\\\").replace(b"\n", b"\\n")
 _UNIMPL = set()
 VALID_CODES = list(range(len(NAMES)))
 MAGS = [-1, 0, 1, 2, 3, 4, 5, 6, 7, 8, 9, 2 ** 15, 2 ** 22, 2 ** 31 - 1, 2 ** 31, 2 ** 31 + 1, 2 ** 32, 2 ** 63 - 1, 2 ** 63,
@@ -259,6 +276,16 @@ def _sweep_fault():
     return evs + [["Pids"]]
 
 
+def _sweep_names(k):
+    """every process and every thread carries the k-th hostile name; pids / pid_exists / process_iter must not care"""
+    evs = [["Spawn", 1, 100], ["Spawn", 5, 100], ["Spawn", 3, 100], ["Exit", 3], ["Thread", 5, 6], ["Thread", 1, 9], ["Thread", 5, 8]]
+    evs += [["PidExists", n] for n in (1, 5, 3, 6, 9, 8, 7, 2)] + [["PidExistsF", 6, "EACCES"], ["Pids"]]
+    evs += [["IterNew", None]] + [["IterNext", 0]] * 4 + [["IterNew", ["name", "pid"], "tuple", None]] + [["IterNext", 1]] * 4
+    c = _hist_case(evs, "hostile-names")
+    c["hostile"] = k
+    return c
+
+
 def _features(evs):
     f = []
     started = set()
@@ -334,6 +361,19 @@ def gen_cases(rng, tier):
         cases.append(_hist_case(_sweep(v), "pidexists-sweep"))
     cases.append(_hist_case(_sweep_fault(), "pidexists-status-fault-sweep"))
     cases.extend(_attrs_block())
+    for k in range(len(HOSTILE)):
+        cases.append(_sweep_names(k))
+    # text level: the status file of a task called <hostile name>, Tgid equal / not equal to the probed id
+    for k in range(len(HOSTILE)):
+        for ident, tg in ((7, 7), (7, 5), (4242, 4242)):
+            cases.append({"kind": "status_named", "cls": "status-named", "pid": ident, "kill": "ok" if k % 3 else "eperm",
+                          "comm": hostile_comm(ident, k).hex(), "pre": ["Umask:\t0022", "State:\tS (sleeping)"], "tgid": str(tg),
+                          "post": "Ngid:\t0\nPid:\t%d\nPPid:\t1\n" % ident, "names": ["1", str(tg), "self"]})
+    # the running kernel: Name: escaping of a child process and of one of its threads, and psutil on the real /proc
+    if tier != "search":
+        for comm in (b"x\rTgid:\t1", b"\rTgid:\t1", b"a\nb\\c\td:e", b"\x0b\x0c\x1c\x1d\x1e\xc2\x85", b"\xe2\x80\xa8Tgid:\t1",
+                     b"plain"):
+            cases.append({"kind": "live_name", "cls": "live-name", "comm": comm.hex(), "tcomm": (b"\rTgid:\t" + comm)[:15].hex()})
     for i in range(n_hist):
         r = rng.random()
         if r < 0.10:
@@ -348,6 +388,8 @@ def gen_cases(rng, tier):
             c = _hist_case(_rand_hist(rng))
             if rng.random() < 0.3:
                 c["unimpl"] = ["num_ctx_switches"]
+            if rng.random() < 0.3:
+                c["hostile"] = rng.randrange(len(HOSTILE))
             cases.append(c)
     if tier == "thorough":
         prefix = [["Spawn", 1, 100], ["Spawn", 2, 100], ["IterNew", None], ["IterNext", 0], ["IterNext", 0], ["IterNext", 0]]
@@ -459,6 +501,12 @@ def coq_term(case):
         return "run_status %s %s (Build_kstatus %s %s %s) %s" % (
             G.z(case["pid"]), KILL_TERM[case["kill"]], G.lst([G.by(x) for x in case["pre"]]), G.by(case["tgid"]),
             G.by(case["post"]), _names_term(case["names"]))
+    if k == "status_named":
+        return "run_status_named %s %s %s %s %s %s %s" % (
+            G.z(case["pid"]), KILL_TERM[case["kill"]], G.by(bytes.fromhex(case["comm"])), G.lst([G.by(x) for x in case["pre"]]),
+            G.by(case["tgid"]), G.by(case["post"]), _names_term(case["names"]))
+    if k == "live_name":
+        return "run_name_lines %s" % G.lst([G.by(bytes.fromhex(case["comm"])), G.by(bytes.fromhex(case["tcomm"]))])
     if k == "rawstatus":
         c = case["content"]
         return "run_status_raw %s %s %s %s" % (G.z(case["pid"]), KILL_TERM[case["kill"]],
@@ -501,8 +549,11 @@ def coq_struct(case, raw):
         if spec is not None:
             spec = Val([spec["a"][0], spec["a"][0][0]])
         return {"printed": raw[0], "model": raw[1], "spec": spec}
-    if k == "status":
+    if k in ("status", "status_named"):
         return {"printed": raw[0], "model": raw[1], "spec": raw[2]}
+    if k == "live_name":
+        # demanded on the real /proc: the child is listed and exists, its thread id does not "exist" and is not listed
+        return {"printed": raw, "model": [Val(True), Val(False), True, False], "spec": [Val(True), Val(False), True, False]}
     if k == "rawstatus":
         return {"model": raw[0], "spec": None}
     raise ValueError(k)
@@ -717,9 +768,9 @@ def judge(case, coq, impl):
 _checked = []
 
 
-def _status_bytes(tid, leader):
-    return (b"Name:\tproc\nUmask:\t0022\nState:\tS (sleeping)\nTgid:\t%d\nNgid:\t0\nPid:\t%d\nPPid:\t1\nThreads:\t2\n"
-            % (leader, tid))
+def _status_bytes(tid, leader, comm=b"proc"):
+    return (b"Name:\t" + _escape_name(comm) +
+            b"\nUmask:\t0022\nState:\tS (sleeping)\nTgid:\t%d\nNgid:\t0\nPid:\t%d\nPPid:\t1\nThreads:\t2\n" % (leader, tid))
 
 
 class _Patches:
@@ -876,6 +927,8 @@ def _run_hist(case, env, psutil):
     with _Patches(root, hidden=hidden):
         try:
             _set_case(case)
+            hk = case.get("hostile")
+            comm_of = (lambda ident: b"proc") if hk is None else (lambda ident: hostile_comm(ident, hk))
             strip = "num_ctx_switches" in _UNIMPL
             if case.get("patch_names"):
                 psutil._as_dict_attrnames = frozenset(n for n in NAMES if n != "ppid")
@@ -884,17 +937,17 @@ def _run_hist(case, env, psutil):
                 if k in KERNEL_EVENTS:
                     for act in tab.apply(ev):
                         if act[0] == "add":
-                            fp.add(act[1], starttime=act[2])
+                            fp.add(act[1], comm=comm_of(act[1]), starttime=act[2])
                             _strip_ctxt(fp, act[1], strip)
                         elif act[0] == "zombie":
-                            fp.add(act[1], starttime=act[2], state=b"Z")
+                            fp.add(act[1], comm=comm_of(act[1]), starttime=act[2], state=b"Z")
                             _strip_ctxt(fp, act[1], strip)
                         elif act[0] == "remove":
                             fp.remove(act[1])
                         elif act[0] == "addtid":
                             os.makedirs(os.path.join(root, str(act[1])), exist_ok=True)
                             with open(os.path.join(root, str(act[1]), "status"), "wb") as f:
-                                f.write(_status_bytes(act[1], act[2]))
+                                f.write(_status_bytes(act[1], act[2], comm_of(act[1])))
                             hidden.add(act[1])
                         elif act[0] == "rmtid":
                             shutil.rmtree(os.path.join(root, str(act[1])), ignore_errors=True)
@@ -979,7 +1032,7 @@ def _run_text(case, coq, env, psutil):
             with _Patches(root, names=names):
                 return outcome(lambda: [list(psutil.pids()), psutil._LOWEST_PID])
         pid = case["pid"]
-        content = unB(coq["printed"]) if k == "status" else (None if case["content"] is None else bytes.fromhex(case["content"]))
+        content = unB(coq["printed"]) if k in ("status", "status_named") else (None if case["content"] is None else bytes.fromhex(case["content"]))
         if content is not None and pid <= PIDMAX:
             os.makedirs(os.path.join(root, str(pid)), exist_ok=True)
             with open(os.path.join(root, str(pid), "status"), "wb") as f:
@@ -989,6 +1042,58 @@ def _run_text(case, coq, env, psutil):
             return outcome(lambda: psutil.pid_exists(pid))
     finally:
         _reset(psutil)
+
+
+_LIVE_CHILD = r"""
+import ctypes, os, sys, threading
+libc = ctypes.CDLL(None, use_errno=True)
+comm, tcomm = bytes.fromhex(sys.argv[1]), bytes.fromhex(sys.argv[2])
+ready = threading.Event()
+def th():
+    libc.prctl(15, tcomm, 0, 0, 0)          # PR_SET_NAME acts on the calling thread
+    sys.stdout.write("%d\n" % threading.get_native_id()); sys.stdout.flush()
+    ready.set()
+    threading.Event().wait()
+libc.prctl(15, comm, 0, 0, 0)
+t = threading.Thread(target=th, daemon=True); t.start(); ready.wait()
+sys.stdin.read()
+"""
+
+
+def _run_live_name(case, coq, env, psutil):
+    """Against the running kernel: a child sets its comm (and the comm of one of its threads) with prctl(PR_SET_NAME); the Name:
+    record of /proc/<pid>/status and /proc/<tid>/status must be byte for byte what the spec's printer k_name_line prints
+    (harness error otherwise: the transcription of the kernel format would be wrong); then the real psutil on the real /proc."""
+    import subprocess
+    import sys
+    comm, tcomm = bytes.fromhex(case["comm"]), bytes.fromhex(case["tcomm"])
+    child = subprocess.Popen([sys.executable, "-c", _LIVE_CHILD, case["comm"], case["tcomm"]], stdin=subprocess.PIPE,
+                             stdout=subprocess.PIPE)
+    try:
+        tid = int(child.stdout.readline())
+        pid = child.pid
+
+        def first_record(path):
+            with open(path, "rb") as f:
+                data = f.read()
+            return data[:data.index(b"\n") + 1]
+        got = [first_record("/proc/%d/status" % pid), first_record("/proc/%d/status" % tid),
+               first_record("/proc/%d/task/%d/status" % (pid, tid))]
+        want = [unB(coq["printed"][0]), unB(coq["printed"][1]), unB(coq["printed"][1])]
+        if got != want:
+            raise RuntimeError("the running kernel prints the Name: record differently from coq/C04/Spec.v k_name_line: "
+                               "kernel %r, spec %r" % (got, want))
+        old = psutil.PROCFS_PATH
+        psutil.PROCFS_PATH = "/proc"
+        try:
+            return [outcome(lambda: psutil.pid_exists(pid)), outcome(lambda: psutil.pid_exists(tid)),
+                    pid in psutil.pids(), tid in psutil.pids()]
+        finally:
+            psutil.PROCFS_PATH = old
+            _reset(psutil)
+    finally:
+        child.kill()
+        child.wait()
 
 
 def _run_sched(case, env, psutil):
@@ -1039,6 +1144,8 @@ def _run_sched_commit(case, env, psutil):
 
 def impl_run(case, coq, env):
     import psutil
+    if case["kind"] == "live_name":
+        return _run_live_name(case, coq, env, psutil)
     if case["kind"] == "sched_commit":
         return _run_sched_commit(case, env, psutil)
     if case["kind"] == "sched":
